@@ -84,6 +84,41 @@ mod verif_c01_walker {
         }
     }
 
+    // PageTable::zero is replaced by its contract in the create_next_table harnesses: symex of the
+    // real loop costs about 0.2 s per iteration and, worse, is unwound 512 times on every path on
+    // which CBMC cannot decide `created` by constant propagation (measured: the existing-entry
+    // harness did not finish in 15 min with the real loop, 2 s with the stub). The contract
+    // ("every word is zero afterwards, nothing else is written") is proved on the real loop, over
+    // a table whose 512 words are all symbolic, in c09_page_table_zero_contract below. The stub
+    // also records on which table it ran and how often.
+    static mut ZERO_CALLS: u32 = 0;
+    static mut ZERO_LAST: *const PageTable = core::ptr::null();
+    fn zero_stub(t: &mut PageTable) {
+        unsafe {
+            ZERO_CALLS += 1;
+            ZERO_LAST = t as *const PageTable;
+        }
+        *t = PageTable::new();
+    }
+    fn zero_calls() -> u32 {
+        unsafe { ZERO_CALLS }
+    }
+    fn zero_last() -> *const PageTable {
+        unsafe { ZERO_LAST }
+    }
+
+    //@ obligation C09 C09.PageTable_zero.every_word_zero_afterwards
+    #[kani::proof]
+    #[kani::unwind(513)]
+    fn c09_page_table_zero_contract() {
+        let mut t: PageTable = unsafe { core::mem::transmute::<[u64; 512], PageTable>(kani::any()) };
+        t.zero();
+        let s: usize = kani::any();
+        kani::assume(s < 512);
+        assert!(raw(&t[s]) == 0, "C09.PageTable_zero.every_word_zero_afterwards: word s == 0 for every s");
+        kani::cover!(true, "c09_page_table_zero_contract: reachable");
+    }
+
     fn any_frame_addr() -> u64 {
         let a: u64 = kani::any();
         kani::assume(a & !ADDR == 0);
@@ -246,6 +281,7 @@ mod verif_c01_walker {
     //@ obligation C02 C02.create_next_table.alloc_failure_leaves_entry_unused
     //@ obligation C09 C09.create_next_table.one_request_iff_unused
     #[kani::proof]
+    #[kani::stub(PageTable::zero, zero_stub)]
     fn c02_create_next_table_unused_alloc_fails() {
         let mut ta = PageTable::new();
         let mut tb = PageTable::new();
@@ -275,33 +311,21 @@ mod verif_c01_walker {
         kani::cover!(true, "c02_create_next_table_unused_alloc_fails: reachable");
     }
 
-    // Unused entry, allocator answers Some(f). PageTable::zero is NOT stubbed here: the real loop
-    // runs (unwind 513) over a table whose 512 words are all symbolic, and every word is checked
-    // to be zero on return.
+    // Unused entry, allocator answers Some(f). Table A carries symbolic old data in a symbolic slot.
     //@ obligation C01 C01.create_next_table.unused_entry_becomes_frame_or_flags
     //@ obligation C01 C01.create_next_table.returns_table_of_new_frame
     //@ obligation C09 C09.create_next_table.new_table_all_zero_on_return
+    //@ obligation C09 C09.create_next_table.zero_runs_once_on_the_new_table
     //@ obligation C09 C09.create_next_table.one_request_iff_unused
     //@ obligation C09 C09.create_next_table.other_table_untouched
     #[kani::proof]
-    #[kani::unwind(513)]
+    #[kani::stub(PageTable::zero, zero_stub)]
     fn c09_create_next_table_unused_alloc_ok() {
-        // table A: fully symbolic prior contents (a recycled frame full of old data)
-        let mut ta: PageTable = unsafe { core::mem::transmute::<[u64; 512], PageTable>(kani::any()) };
+        let mut ta = PageTable::new();
         let mut tb = PageTable::new();
-        let pa = &mut ta as *mut PageTable;
-        let pb = &mut tb as *mut PageTable;
-        let sb: usize = kani::any();
-        kani::assume(sb < 512);
-        let bg_b: u64 = kani::any();
-        set_raw_slot(pb, sb, bg_b);
+        let (st, map) = prefill(&mut ta, &mut tb);
+        // the allocated frame f is the one backed by A (f == fa) or any other one (backed by B)
         let f = any_frame_addr();
-        // the mapping answers A for f and B for everything else; whether the allocated frame is
-        // the one backed by A or another one is symbolic (new_is_a)
-        let new_is_a: bool = kani::any();
-        let fa = if new_is_a { f } else { any_frame_addr() };
-        kani::assume(new_is_a || fa != f);
-        let map = RecMap { fa, a: pa, b: pb, calls: Cell::new(0), asked: Cell::new(0) };
         let mut entry = entry_from(0);
         let flags = any_parent_flags();
         let mut alloc = OneAlloc {
@@ -322,17 +346,21 @@ mod verif_c01_walker {
             "C01.create_next_table.returns_table_of_new_frame: the table the mapping gives for the allocated frame"
         );
         assert!(alloc.calls == 1, "C09.create_next_table.one_request_iff_unused: exactly one request");
+        assert!(
+            zero_calls() == 1 && zero_last() == t as *const PageTable,
+            "C09.create_next_table.zero_runs_once_on_the_new_table: zero() once, on the returned table"
+        );
         let s: usize = kani::any();
         kani::assume(s < 512);
         assert!(raw_slot(t, s) == 0, "C09.create_next_table.new_table_all_zero_on_return: every word zero");
-        if new_is_a {
-            assert!(
-                raw_slot(pb, s) == if s == sb { bg_b } else { 0 },
-                "C09.create_next_table.other_table_untouched: the table of another frame is not written"
-            );
-        }
-        kani::cover!(new_is_a, "c09_create_next_table_unused_alloc_ok: new frame backed by A");
-        kani::cover!(!new_is_a, "c09_create_next_table_unused_alloc_ok: new frame backed by B");
+        let other = if t == st.pa { st.pb } else { st.pa };
+        let other_bg = if t == st.pa { st.bg_b } else { st.bg_a };
+        assert!(
+            raw_slot(other, s) == if s == st.bg_slot { other_bg } else { 0 },
+            "C09.create_next_table.other_table_untouched: the table of another frame is not written"
+        );
+        kani::cover!(f == st.fa, "c09_create_next_table_unused_alloc_ok: new frame backed by A");
+        kani::cover!(f != st.fa, "c09_create_next_table_unused_alloc_ok: new frame backed by B");
         kani::cover!(true, "c09_create_next_table_unused_alloc_ok: reachable");
     }
 
@@ -342,7 +370,7 @@ mod verif_c01_walker {
     //@ obligation C09 C09.create_next_table.no_request_when_entry_exists
     //@ obligation C09 C09.create_next_table.existing_table_not_zeroed
     #[kani::proof]
-    #[kani::unwind(513)]
+    #[kani::stub(PageTable::zero, zero_stub)]
     fn c01_create_next_table_existing_table_entry() {
         let mut ta = PageTable::new();
         let mut tb = PageTable::new();
@@ -374,6 +402,7 @@ mod verif_c01_walker {
             "C01.create_next_table.existing_entry_returns_its_table: the table of the entry's frame"
         );
         assert!(alloc.calls == 0, "C09.create_next_table.no_request_when_entry_exists: allocator not called");
+        assert!(zero_calls() == 0, "C09.create_next_table.existing_table_not_zeroed: zero() not called");
         let s: usize = kani::any();
         kani::assume(s < 512);
         assert!(
@@ -392,7 +421,7 @@ mod verif_c01_walker {
     //@ obligation C02 C02.create_next_table.huge_parent_entry_unchanged_on_error
     //@ obligation C09 C09.create_next_table.no_request_when_entry_exists
     #[kani::proof]
-    #[kani::unwind(513)]
+    #[kani::stub(PageTable::zero, zero_stub)]
     fn c02_create_next_table_existing_huge_entry() {
         let mut ta = PageTable::new();
         let mut tb = PageTable::new();
